@@ -1,7 +1,8 @@
 (* C13 - stg repair reconciles the stack with a branch moved by plain git.
    Only the property theorems; proofs in Proofs/RepairProofs.v and by computation on Gen/. *)
 From Coq Require Import String Permutation.
-From StgV Require Import Model.CmdSpec Gen.CmdTable Proofs.RepairProofs.
+From StgV Require Import Model.CmdSpec Model.RepairSpec Gen.CmdTable Proofs.RepairProofs Proofs.RepairNoopProofs
+  Proofs.PlainOlderStep Proofs.RepairNoopReach.
 
 (* repair is a pure rearrangement of the existing patches: none is dropped, none invented *)
 Theorem C13_appliedness_is_permutation :
@@ -44,6 +45,95 @@ Theorem C13_walk_sound :
     /\ (forall c, In c patchify -> patch_of_commit s c = None /\ exists p, parents_of objs c = [p]).
 Proof. exact walk_sound. Qed.
 Print Assumptions C13_walk_sound.
+
+(* ------------------------------------------------------------------------------------------
+   Whole-command theorems (through open_stack, the head checks, repair_walk, repair_base, the
+   patchify loop, repair_appliedness, execute): "repair on a consistent stack changes nothing but
+   the log", and repair is idempotent.  Spec in Model/RepairSpec.v (`walked`: the commits the walk
+   visits; `repair_consistent`: branch = recorded head = top patch, and no unapplied or hidden
+   patch's commit among the walked commits - after `stg rebase <a patch's commit>` repair rightly
+   applies such a patch).  Proofs in Proofs/RepairNoopProofs.v, RepairNoopIdem.v, PlainOlder*.v,
+   RepairNoopReach.v.
+   ------------------------------------------------------------------------------------------ *)
+
+(* every single-parent plain commit is younger than its parent: an invariant of every command
+   (the store is append-only and a commit names only parents that exist when it is written) *)
+Theorem C13_plain_parents_older_invariant :
+  forall lower_s, LowerOK lower_s ->
+  forall w c, in_scope c = true -> Inv w -> plain_parents_older (w_objs w) ->
+    plain_parents_older (w_objs (fst (step lower_s w c))).
+Proof. exact step_plain_parents_older. Qed.
+Print Assumptions C13_plain_parents_older_invariant.
+
+(* repair on a consistent stack: same three lists, same commit for every patch, same head;
+   branch, index, work tree untouched; the patch refs are exactly the patch map *)
+Theorem C13_repair_consistent_noop :
+  forall lower_s w st w1,
+    Inv6 w -> prev_decreasing (w_objs w) ->
+    plain_parents_older (w_objs w) ->
+    cur_state w = Some st ->
+    repair_consistent w st ->
+    run_repair lower_s w = (w1, X0) ->
+    (exists st1, cur_state w1 = Some st1 /\ same_stack st1 st)
+    /\ w_branch w1 = w_branch w /\ w_wt w1 = w_wt w /\ w_unmerged w1 = w_unmerged w
+    /\ (forall n, pm_get (w_prefs w1) n = pm_get (s_patches st) n).
+Proof. exact repair_consistent_noop_partial. Qed.
+Print Assumptions C13_repair_consistent_noop.
+
+(* ... and for every world reached from the initial world by commands nothing is left to assume
+   about the store *)
+Theorem C13_repair_consistent_noop_reachable :
+  forall lower_s, LowerOK lower_s ->
+  forall t cs st w1,
+    forallb in_scope cs = true ->
+    cur_state (run lower_s (init_world t) cs) = Some st ->
+    repair_consistent (run lower_s (init_world t) cs) st ->
+    run_repair lower_s (run lower_s (init_world t) cs) = (w1, X0) ->
+    (exists st1, cur_state w1 = Some st1 /\ same_stack st1 st)
+    /\ w_branch w1 = w_branch (run lower_s (init_world t) cs)
+    /\ w_wt w1 = w_wt (run lower_s (init_world t) cs)
+    /\ w_unmerged w1 = w_unmerged (run lower_s (init_world t) cs)
+    /\ (forall n, pm_get (w_prefs w1) n = pm_get (s_patches st) n).
+Proof. exact repair_consistent_noop_reachable. Qed.
+Print Assumptions C13_repair_consistent_noop_reachable.
+
+(* without the age condition the statement is false of the bare invariant: Inv6 admits a commit
+   that is its own parent, which the walk meets again (witness in the proof file); this is why
+   the invariant above had to be proved first *)
+Theorem C13_repair_noop_needs_acyclic_store :
+  ~ (forall lower_s w st w1,
+        Inv6 w -> prev_decreasing (w_objs w) ->
+        cur_state w = Some st ->
+        repair_consistent w st ->
+        run_repair lower_s w = (w1, X0) ->
+        (exists st1, cur_state w1 = Some st1 /\ same_stack st1 st)
+        /\ w_branch w1 = w_branch w /\ w_wt w1 = w_wt w /\ w_unmerged w1 = w_unmerged w
+        /\ (forall n, pm_get (w_prefs w1) n = pm_get (s_patches st) n)).
+Proof. exact repair_consistent_noop_refuted. Qed.
+Print Assumptions C13_repair_noop_needs_acyclic_store.
+
+(* a second repair changes nothing (reachable worlds; that the second run succeeds is a
+   premise: partial) *)
+Theorem C13_repair_idempotent_partial :
+  forall lower_s, LowerOK lower_s ->
+  forall t cs w1 w2,
+    forallb in_scope cs = true ->
+    run_repair lower_s (run lower_s (init_world t) cs) = (w1, X0) ->
+    run_repair lower_s w1 = (w2, X0) ->
+    exists st1 st2,
+      cur_state w1 = Some st1 /\ cur_state w2 = Some st2 /\ same_stack st2 st1
+      /\ w_branch w2 = w_branch w1.
+Proof. exact repair_idempotent_reachable. Qed.
+Print Assumptions C13_repair_idempotent_partial.
+
+(* the premises are satisfiable: two applied patches and an unapplied one, repair succeeds *)
+Theorem C13_repair_noop_nonvacuous :
+  exists w st w1,
+    cur_state w = Some st /\ w_branch w = s_head st /\ s_top st = s_head st
+    /\ length (s_applied st) = 2 /\ length (s_unapplied st) = 1
+    /\ run_repair (fun s => s) w = (w1, X0).
+Proof. exact repair_noop_nonvacuous. Qed.
+Print Assumptions C13_repair_noop_nonvacuous.
 
 (* --- tie to the current source --- *)
 (* stg repair: RequireInitialized, protected branches refused before anything else, and the
